@@ -59,6 +59,7 @@ type Netconf struct {
 	Requests []NCRequest
 	pos      int // parse position in Raw
 	msgSeq   int
+	echoed   bool
 	Sent     []string // framed replies as sent (for oracles)
 	SentFor  []int    // request index each sent reply belongs to
 }
@@ -140,8 +141,10 @@ func (s *Netconf) Input(b []byte, now time.Duration) []simnet.Seg {
 	var segs []simnet.Seg
 	s.Raw = append(s.Raw, b...)
 	if s.Spec.Echo {
-		s.msgSeq++
-		segs = append(segs, simnet.Seg{B: append([]byte(nil), b...), Msg: s.msgSeq})
+		// the echo of the client's own bytes is not a server message: it may share a read with
+		// the reply that follows it (it carries the id the next reply will get)
+		segs = append(segs, simnet.Seg{B: append([]byte(nil), b...), Msg: s.msgSeq + 1})
+		s.echoed = true
 	}
 	for {
 		rest := s.Raw[s.pos:]
@@ -246,6 +249,7 @@ func (s *Netconf) reply(idx int, req NCRequest) []simnet.Seg {
 	}
 	framed += r.Trailer
 	s.msgSeq++
+	s.echoed = false
 	s.Sent = append(s.Sent, framed)
 	s.SentFor = append(s.SentFor, idx)
 	seg := simnet.Seg{B: []byte(framed), Msg: s.msgSeq}
